@@ -45,6 +45,7 @@ type endpoint struct {
 	rewrite  func([]byte) []byte // free mode: what the adversary makes of a frame this end writes
 	// observation
 	consumedCorrupt string // non-empty: bytes of a malformed / truncated frame were consumed
+	corruptPeerIndep bool  // ... at a moment when the peer no longer depended on this end (frame 4 / peer decided)
 	credSeen        *wireFrame
 	lastSeen        *wireFrame // last well-formed frame of an expected type this end consumed
 	proto           bool       // this connection runs the proto negotiation
